@@ -189,6 +189,23 @@ def r4(ctx):
     ctor = [c for c in calls_to(repo, f, "gunicorn.pidfile.Pidfile")]
     ctx.check("C17.R4", bool(cr) and bool(ctor) and all(cfg_attr(c.args[0]) == "pidfile" for c in ctor) and all("self.pid" in n.text for n in cr), key(f, "reload-recreates"), site(f),
               "reload does not re-create the pid file under cfg.pidfile with the master's pid", "Pidfile(cfg.pidfile).create(self.pid)")
+    # ... and an unlink() of the previous Pidfile object that can run AFTER the create() is only harmless when the two
+    # paths differ: on the same path create() finds its own pid and keeps the file, the old object's unlink() (owner
+    # check passes: same pid) then deletes it -- the running master is left without a pid file
+    un = [nn for c in method_calls(f, "unlink") for nn in nodes_with(f, c) if "pidfile" in norm(c.func.value).lower() or isinstance(c.func.value, ast.Name)]
+    late = [u for u in un if any(u in g.reachable([(c_, "next")], follow_exc=False) for c_ in cr)]
+
+    def paths_differ(e):
+        c = compare(e)
+        if c and c[1] in (ast.Eq, ast.NotEq) and all(any(k in norm(x).lower() for k in ("fname", "pidfile")) for x in (c[0], c[2])):
+            return +1 if c[1] is ast.Eq else -1        # C = 'the old and the new path are the same'
+        return None
+    for u in late:
+        p, hits = guard_check(f, [u], paths_differ)
+        ctx.check("C17.R4", p is None, key(f, "unlink-after-create-guarded"), site(f, u),
+                  "the previous pid file object is unlinked after the new one was created, also when both have the same path: create() keeps the file (it already holds our pid), "
+                  "unlink() then removes it -- after a reload the running master has no pid file and a second instance is not refused", "unlink after create only when the path changed",
+                  path=p and g.fmt_path(p))
     # crash path of run() releases the pid file
     fr = ctx.fn(repo.func(ARB + ".run"))
     hs = [h for h in walk_own(fr.node) if isinstance(h, ast.ExceptHandler) and h.type is not None and norm(h.type) == "Exception"]
